@@ -829,6 +829,8 @@ func (g *Gen) havocByContract(st *State, cc *Contract, env map[string]Val, args 
 		switch {
 		case strings.HasPrefix(m, "$"):
 			g.havocGhost(st, m)
+		case m == "mem":
+			g.havocHs(st, nil, true)
 		case strings.HasPrefix(m, "mem("):
 			name := strings.TrimSuffix(strings.TrimPrefix(m, "mem("), ")")
 			v, ok := env[name]
